@@ -51,8 +51,26 @@ def _gen_buffer(ctx, env, pol, N, adv_kind, i, clip=0.2):
     acts = jax.vmap(lambda k: env.action_space.sample(key=k))(jr.split(ctx.key(60_000 + i), N))
     if env.kind == "box":
         acts = acts * 1.5  # some outside the bounds as unclipped policy samples would be
-    _, v, lp, ent = jax.vmap(lambda o, a: pol.evaluate_action(None, o, a))(obs, acts)
+    masks = None
+    if env.kind == "discrete" and (i // 2) % 2 == 1:
+        # an environment that offers action masks: the stored samples are allowed actions and every
+        # quantity of the loss is the masked law's
+        nA = env.action_space.n
+        m = rng.random((N, nA)) < 0.6
+        a_np = np.asarray(acts)
+        m[np.arange(N), a_np] = True
+        masks = jnp.asarray(m)
+    _, v, lp, ent = jax.vmap(lambda o, a, mk: pol.evaluate_action(None, o, a, action_mask=mk))(obs, acts, masks)
     v, lp, ent = np.asarray(v, np.float64), np.asarray(lp, np.float64), np.asarray(ent, np.float64)
+    if masks is not None:
+        # independent masked log-softmax over the policy's own unmasked logits
+        _, _, lp_unmasked, _ = jax.vmap(lambda o, a: pol.evaluate_action(None, o, a))(obs, acts)
+        feats = jax.vmap(lambda o: pol.encoder(pol.observation_space.flatten_sample(o)))(obs)
+        logits = np.asarray(jax.vmap(lambda f: pol.action_head(f).logits)(feats), np.float64)
+        ml = np.where(np.asarray(masks), logits, -np.inf)
+        ml = ml - np.log(np.sum(np.exp(ml - ml.max(axis=1, keepdims=True)), axis=1, keepdims=True)) - ml.max(axis=1, keepdims=True)
+        lp_ref = ml[np.arange(N), np.asarray(acts)]
+        lp = lp_ref  # the oracle's log-probs come from the reference masked softmax
     # target ratios: inside, near and beyond both edges
     choices = np.array([1.0, 1 - 0.5 * clip, 1 + 0.5 * clip, 1 - clip - 0.05, 1 + clip + 0.05, 1 - 3 * clip, 1 + 3 * clip,
                         1 - clip + 1e-3, 1 + clip - 1e-3, 0.2, 4.0])
@@ -72,9 +90,9 @@ def _gen_buffer(ctx, env, pol, N, adv_kind, i, clip=0.2):
     old_v = (v + rng.choice([0.0, 0.05, -0.05, 0.5, -0.5, 3.0], size=N) * rng.uniform(0.5, 1.5, N)).astype(np.float32)
     ret = (v + rng.normal(0, 1, N) * rng.choice([0.1, 1.0, 10.0], size=N)).astype(np.float32)
     buf = RolloutBuffer(observations=obs, actions=acts, rewards=jnp.zeros(N), dones=jnp.zeros(N, bool),
-                        log_probs=jnp.asarray(old_lp), values=jnp.asarray(old_v), states=None,
+                        log_probs=jnp.asarray(old_lp), values=jnp.asarray(old_v), states=None, action_masks=masks,
                         returns=jnp.asarray(ret), advantages=jnp.asarray(adv))
-    return buf, dict(v=v, lp=lp, ent=ent, old_lp=old_lp.astype(np.float64), adv=adv.astype(np.float64),
+    return buf, dict(masked=masks is not None, v=v, lp=lp, ent=ent, old_lp=old_lp.astype(np.float64), adv=adv.astype(np.float64),
                      old_v=old_v.astype(np.float64), ret=ret.astype(np.float64))
 
 
@@ -138,6 +156,8 @@ def u_ppo(ctx, kind):
                   "vf": vf, "ent": ec, "outside": outside, "h": digest(d["lp"], d["old_lp"], d["adv"])},
                  nontrivial=outside > 0, cls=f"ppo-{kind}/{adv_kind}/norm{int(normalize)}/vclip{int(clip_value)}")
         ctx.monitor("ppo_loss_evaluations")
+        if d["masked"]:
+            ctx.monitor("loss_evaluations_on_masked_buffers")
         sc = float(np.max(np.abs(ref["adv"]))) * float(np.max(ref["ratio"])) if N else 1.0
         info = {"kind": kind, "N": N, "adv": adv_kind, "normalize": normalize, "clip_value": clip_value, "clip": clip}
         if not _cmp(stats.policy_loss, ref["policy"], sc):
@@ -187,6 +207,9 @@ def u_a2c_reinforce(ctx):
         ctx.case({"algo": which, "kind": kind, "N": N, "adv": adv_kind, "normalize": normalize, "vf": vf, "ent": ec,
                   "h": digest(d["lp"], d["adv"], d["ret"])}, nontrivial=both, cls=f"{which}-{kind}/{adv_kind}/norm{int(normalize)}")
         info = {"algo": which, "kind": kind, "N": N, "adv": adv_kind, "normalize": normalize}
+        if d["masked"]:
+            ctx.monitor("loss_evaluations_on_masked_buffers")
+            ctx.monitor(f"{which}_loss_evaluations_on_masked_buffers")
         if which == "a2c":
             loss, st = a2c(pol, buf, normalize, vf, ec)
             want = pl + vf * vl + ec * el
